@@ -89,6 +89,7 @@ func (x *Exec) entryHeapFacts(key string, s *Sort) {
 			x.trusted[offsetAssumption] = true
 		}
 	}
+	x.heapTypeFacts(key, x.ctx.Const("H0_"+key, s))
 	x.refBound(x.ctx.Const("H0_"+key, s), IntLit(0))
 	x.perm = append(x.perm, x.facts[n:]...)
 	x.facts = x.facts[:n]
@@ -501,4 +502,24 @@ func (x *Exec) name(prefix string, t *Term) *Term {
 func (x *Exec) noteWrite(key string, base *Term) {
 	x.written[key] = true
 	x.writeBases[key] = append(x.writeBases[key], base)
+}
+
+// heapTypeFacts: type invariants of values stored in a (fresh) heap array: slice lengths and
+// interface tags are non-negative.
+func (x *Exec) heapTypeFacts(key string, arr *Term) {
+	if !(strings.HasSuffix(key, "#len") || strings.HasSuffix(key, "#tag") || strings.HasPrefix(key, "ML:")) {
+		return
+	}
+	var idx []*Term
+	srt := arr.Sort
+	cur := arr
+	for srt.Kind == SArray {
+		v := BoundVar(fmt.Sprintf("i%d", len(idx)), srt.Key)
+		idx = append(idx, v)
+		cur = Select(cur, v)
+		srt = srt.Val
+	}
+	if srt.Kind == SInt && len(idx) > 0 {
+		x.facts = append(x.facts, Forall(idx, Ge(cur, IntLit(0)), []*Term{cur}))
+	}
 }
